@@ -267,6 +267,9 @@ def streams_for(prop, seed, tier, boost=1):
         add('high-index', genmod.high_index_limit_stream())
         add('dec-setters', genmod.dec_setter_stream(G('ds'), n=15 * k))
         add('dec-extra', genmod.dec_extra_catalogue(G('dx')))
+        add('never-indexed-utf8', genmod.never_indexed_utf8_stream())
+        add('failed-then-fresh', genmod.failed_then_fresh_stream())
+        add('limits-interleaved', genmod.limit_interleaved_stream())
     elif prop in ('C04', 'C05'):
         add('deccat', G('deccat').dec_catalogue())
         add('dec-mal', G('dec').dec_stream(n_conn=60 * k, mal=0.55))
@@ -297,6 +300,9 @@ def streams_for(prop, seed, tier, boost=1):
         add('dec-extra', genmod.dec_extra_catalogue(G('dx')))
         add('dec-update-runs', genmod.dec_updates_stream(G('du'), n=10 * k))
         add('dec-setters', genmod.dec_setter_stream(G('ds'), n=8 * k))
+        add('raise-then-reference', genmod.raise_then_reference_stream())
+        add('limits-interleaved', genmod.limit_interleaved_stream())
+        add('failed-then-fresh', genmod.failed_then_fresh_stream())
     elif prop in ('C03', 'C19', 'C15'):
         add('enccat', G('enccat').enc_catalogue())
         add('enc', G('enc').enc_stream(n_conn=60 * k))
@@ -313,6 +319,9 @@ def streams_for(prop, seed, tier, boost=1):
             add('dec-extra', genmod.dec_extra_catalogue(G('dx')))
             add('conn', G('conn').conn_stream(n_conn=15 * k))
             add('deccat', G('deccat').dec_catalogue())
+            add('never-indexed-utf8', genmod.never_indexed_utf8_stream())
+        ops_, groups_ = genmod.both_sensitivities_stream(G('bs'), n=6 * k)
+        add('both-sensitivities', ops_)
     elif prop == 'C09':
         add('enccat', G('enccat').enc_catalogue())
         add('enc-sizes', genmod.enc_size_stream(G('es'), n=60 * k))
@@ -356,11 +365,18 @@ def streams_for(prop, seed, tier, boost=1):
         add('dict-and-generators', ops, {'groups': groups})
         ops, pairs = genmod.utf8_tail_stream()
         add('utf8-tails', ops, {'pairs': pairs})
+        ops, groups = genmod.both_sensitivities_stream(G('bs'), n=12 * k)
+        add('both-sensitivities', ops, {'groups': groups})
+        add('never-indexed-utf8', genmod.never_indexed_utf8_stream())
     elif prop == 'C16':
         add('deccat', G('deccat').dec_catalogue())
         add('dec-mal', G('dec').dec_stream(n_conn=30 * k, mal=0.4))
     elif prop == 'C20':
         add('conn', G('conn').conn_stream(n_conn=10 * k))
+        add('failed-then-fresh', genmod.failed_then_fresh_stream())
+        add('limits-interleaved', genmod.limit_interleaved_stream())
+        ops_, groups_ = genmod.both_sensitivities_stream(G('bs'), n=4 * k)
+        add('both-sensitivities', ops_)
     return out
 
 
